@@ -4,8 +4,8 @@
 // parsed by the implementation (parser.ParseProgram + VerifResolverTables); the
 // same abstract program goes to the extracted Coq model (modelrun resolve).
 // Verdict, variable table (scope, type, index of every variable and parameter),
-// function table and - as far as Go's map order leaves it determined - the
-// error are compared.
+// function table and the error are compared exactly: the implementation
+// processes names in sorted order, which is the model's resolve_impl.
 //
 // Search (implementation only): verdict and types against an independent
 // union-find inference (infer.go); verdict/types/behaviour across permutations
@@ -35,6 +35,14 @@ func nativeFuncs(ns []Native) map[string]any {
 	m := map[string]any{}
 	for _, n := range ns {
 		switch {
+		case n.NotFunc == "nil":
+			m[n.Name] = nil
+		case n.NotFunc == "int":
+			m[n.Name] = 42
+		case n.NotFunc == "string":
+			m[n.Name] = "not a function"
+		case n.NotFunc != "":
+			m[n.Name] = []int{1, 2}
 		case n.Variadic:
 			m[n.Name] = func(a ...string) string { return "" }
 		case n.In == 2:
@@ -74,6 +82,7 @@ var errPatterns = []struct {
 	{regexp.MustCompile(`^can't call local variable "(\w+)" as function$`), func(m []string) string { return "calllocal " + hx.HexS(m[1]) }},
 	{regexp.MustCompile(`^undefined function "(\w+)"$`), func(m []string) string { return "undefined " + hx.HexS(m[1]) }},
 	{regexp.MustCompile(`^"(\w+)" called with more arguments than declared$`), func(m []string) string { return "toomanyargs " + hx.HexS(m[1]) }},
+	{regexp.MustCompile(`^native function "(\w+)" is not a function$`), func(m []string) string { return "notfunc " + hx.HexS(m[1]) }},
 	{regexp.MustCompile(`^can't use (scalar|array) "(\w+)" as (scalar|array)$`), func(m []string) string { return "use " + m[1] + " " + hx.HexS(m[2]) + " " + m[3] }},
 	{regexp.MustCompile(`^can't pass (scalar|array) "(\w+)" as (scalar|array) param$`), func(m []string) string {
 		return "passvar " + m[1] + " " + hx.HexS(m[2]) + " " + m[3]
@@ -337,15 +346,14 @@ func main() {
 	type ref struct{ k, kind int }
 	var refs []ref
 	for i, k := range ks {
-		// the oracle seed varies: verdict and tables must not depend on it
-		lines = append(lines, fmt.Sprintf("resolve %d 100 ", i%7)+k.wire)
+		// the implementation goes through names in sorted order: its outcome is resolve_impl, exactly
+		lines = append(lines, "impl "+k.wire)
 		refs = append(refs, ref{i, 0})
 		lines = append(lines, "wf "+k.wire)
 		refs = append(refs, ref{i, 1})
-		if !k.impl.Ok && len(k.p.funcs()) <= 6 {
-			lines = append(lines, "errset "+k.wire)
-			refs = append(refs, ref{i, 2})
-		}
+		// any other processing order: same verdict, same tables (the theorems' claim, run)
+		lines = append(lines, fmt.Sprintf("resolve %d ", i%7)+k.wire)
+		refs = append(refs, ref{i, 2})
 	}
 	answers, err := hx.ModelEval(o.ModelRun, lines)
 	if err != nil {
@@ -373,7 +381,7 @@ func main() {
 		}
 		mm := func(note string) {
 			rep.Mismatch(hx.Mismatch{Class: k.p.Family, Input: k.src + " ## " + k.wire, Impl: k.impl.verdict() + " " + k.impl.Err + " " + k.impl.Tables,
-				Model: model[i][0] + " ## errset: " + model[i][2], Note: note})
+				Model: model[i][0] + " ## other order: " + model[i][2], Note: note})
 		}
 		m := model[i][0]
 		switch {
@@ -390,24 +398,16 @@ func main() {
 				mm("tables differ")
 			}
 		default:
-			if !strings.HasPrefix(m, "err ") {
-				mm("implementation rejects, model does not")
-			} else if es := model[i][2]; es != "" {
-				// which error comes first depends on Go's map order: the implementation's must be
-				// one of the outcomes of the model over all orders of the functions
-				found := false
-				for _, e := range strings.Split(es, " | ") {
-					if e == "err "+k.impl.Err {
-						found = true
-					}
-				}
-				if !found {
-					mm("error is not among the model's outcomes over all function orders")
-				}
-			} else if strings.HasPrefix(k.p.Family, "chain") && m != "err "+k.impl.Err {
-				// chains have a single possible order
-				mm("error differs (single-order family)")
+			if m != "err "+k.impl.Err {
+				mm("implementation rejects; the model's outcome (same processing order) differs")
 			}
+		}
+		// another processing order in the model: the verdict, and the tables of an accepted program, are the same
+		if o2 := model[i][2]; strings.HasPrefix(o2, "driver-error") {
+			rep.HarnessError("model: %s on %s", o2, k.wire)
+		} else if strings.HasPrefix(m, "ok ") != strings.HasPrefix(o2, "ok ") || (strings.HasPrefix(m, "ok ") && m != o2) {
+			rep.Mismatch(hx.Mismatch{Class: k.p.Family, Input: k.src + " ## " + k.wire, Impl: "model, sorted order: " + m,
+				Model: "model, seed order: " + o2, Note: "the model's outcome depends on the processing order"})
 		}
 		// model precondition vs the harness's own notion of a valid program
 		if (model[i][1] == "1") != k.inf.Valid {
